@@ -341,18 +341,13 @@ NoExpr == <<>>
 FmtArgs == {<<>>} \cup {<<e>> : e \in Exprs} \cup {<<e1, e2>> : e1 \in Exprs2, e2 \in Exprs2}
 \* <<number of specifiers, arguments>>: matching, one specifier too many, one argument too many
 Fmts == {<<Len(a), a>> : a \in FmtArgs} \cup {<<1, <<>>>>} \cup {<<0, <<e>>>> : e \in Exprs2}
-DefineToks == {Tok("define", <<n>>, e, 0, <<>>, {}) : n \in Lvals, e \in Exprs}
+\* (operators with a parameter: TLC builds these sets where they are used, not once for every configuration file)
+DefineToks(L) == {Tok("define", <<n>>, e, 0, <<>>, {}) : n \in L, e \in Exprs}
 FormatToks(k) == {Tok(k, <<>>, NoExpr, f[1], f[2], {}) : f \in Fmts}
 WFmts == {<<0, <<>>>>, <<1, <<>>>>} \cup {<<n, <<e>>>> : n \in 0..1, e \in Exprs2}
-WriteToks == {Tok("write_file", <<>>, e, f[1], f[2], kw) : e \in Exprs2, f \in WFmts, kw \in SUBSET {"filename", "contents"}}
-\* (an operator with a parameter, so that TLC builds the set where it is used and not for every configuration)
+WriteToks(K) == {Tok("write_file", <<>>, e, f[1], f[2], kw) : e \in Exprs2, f \in WFmts, kw \in SUBSET K}
 LoopToks(forms) == {Tok("loop", <<n1, n2>>, e, 0, <<>>, kw) : n1 \in Lvals \ {"$resp"}, n2 \in LoopVals, e \in Exprs, kw \in forms}
 OtherToks == {Tok(k, <<>>, NoExpr, 0, <<>>, {}) : k \in {"unknown", "multi", "empty"}}
-StmtToks == (IF "define" \in Kinds THEN DefineToks ELSE {})
-            \cup (IF "print" \in Kinds THEN FormatToks("print") ELSE {})
-            \cup (IF "comment" \in Kinds THEN FormatToks("comment") ELSE {})
-            \cup (IF "write_file" \in Kinds THEN WriteToks ELSE {})
-            \cup (IF "invalid" \in Kinds THEN OtherToks ELSE {})
 EndTok == Tok("end", <<>>, NoExpr, 0, <<>>, {})
 
 RE(path, res, val, sp, p) == [path |-> path, res |-> res, val |-> val, sp |-> sp, p |-> p]
@@ -382,13 +377,16 @@ Depth == Len(scopes) - 1
 Init == /\ phase = "request" /\ req = <<>> /\ bases = <<>> /\ scopes = <<RootScope>> /\ prog = <<>> /\ obs = <<>>
         /\ verdict = "running"
 Next == \/ \E es \in ReqLists : ValidateRequest(es)
-        \/ (NStmts < MaxLen /\ \E t \in StmtToks : Step(t))
+        \/ (NStmts < MaxLen /\ "define" \in Kinds /\ \E t \in DefineToks(Lvals) : Step(t))
+        \/ (NStmts < MaxLen /\ \E k \in Kinds \cap {"print", "comment"} : \E t \in FormatToks(k) : Step(t))
+        \/ (NStmts < MaxLen /\ "write_file" \in Kinds /\ \E t \in WriteToks({"filename", "contents"}) : Step(t))
+        \/ (NStmts < MaxLen /\ "invalid" \in Kinds /\ \E t \in OtherToks : Step(t))
         \/ (NStmts < MaxLen /\ Depth < MaxDepth /\ "loop" \in Kinds /\ \E t \in LoopToks(LoopForms) : Step(t))
         \/ Step(EndTok)
         \/ Finish
 Done == verdict # "running"
 (* The same actions driven by random tokens (TLC -simulate over a vocabulary too wide to enumerate the successors  *)
-(* of a state): one random token per statement kind is drawn per step and, four times out of five, one that is     *)
+(* of a state): one random token per statement kind is drawn per step and, seven times out of eight, one that is     *)
 (* accepted is taken if there is one, so that the sampled configurations are not all rejected at their first       *)
 (* statement.  (Rnd mentions a variable so that TLC does not fold the draw into a constant.)                       *)
 Rnd(S) == RandomElement(IF verdict = "" THEN {} ELSE S)
@@ -404,11 +402,11 @@ SimReqLists == {<<>>} \cup {<<ReqVocab[k]>> : k \in ReqKeys \cap {"name", "name/
 Fits(t) == IF t.k = "end" THEN Depth > 0 ELSE NStmts < MaxLen /\ (t.k = "loop" => Depth < MaxDepth)
 NextSim == \/ \E es \in {Rnd(ReqLists), Rnd(SimReqLists), Rnd(SimReqLists)} : ValidateRequest(es)
            \/ /\ Running
-              /\ \E T \in {RndToks} : \E pick \in {Rnd(1..5)} :
+              /\ \E T \in {RndToks} : \E pick \in {Rnd(1..8)} :
                     LET F == {t \in T : Fits(t)}
                         G == {t \in F : ErrOf(t) = ""}
-                    IN  \E t \in (IF G # {} /\ pick < 5 THEN G ELSE F) : Step(t)
-           \/ Finish
+                    IN  \E t \in (IF G # {} /\ pick < 8 THEN G ELSE F) : Step(t)
+           \/ (Finish /\ \E q \in {Rnd(1..3)} : q = 1 \/ NStmts >= MaxLen)
 Terminated == Done /\ UNCHANGED vars
 Spec  == Init /\ [][Next]_vars /\ WF_vars(Next)
 SpecT == Init /\ [][Next \/ Terminated]_vars /\ WF_vars(Next)        \* with deadlock checking: no state but a final one is stuck
